@@ -228,8 +228,8 @@ class BaseData:
             self.alter["columns"].extend(alter_columns)
 
         table_columns = self.get_normalized_table_columns_names()
-        # add columns from 'alter add'
-        for column in self.alter["columns"]:
+        # add columns from this 'alter add' (earlier ones were added by their own statement)
+        for column in alter_columns:
             if normalize_name(column["name"]) not in table_columns:
                 self.columns.append(column)
 
